@@ -1063,7 +1063,36 @@ impl H {
 
     /// deterministic reproduction of the listed findings (and of three repaired defects), so that
     /// their verdict does not depend on what the generator happens to pick
+    /// Requests without effect on the store, carrying header values that are legal on the wire (obs-text bytes
+    /// >= 0x80, very long, empty) but hostile to code that decodes them: whatever the status, there must be a
+    /// response (never a dropped connection, never a 5xx).
+    fn hostile_headers(&mut self) -> R<()> {
+        let values: [&[u8]; 7] = [b"\xff", b"text/event-stream\xe9", b"\x80\x81\x82", b"", b"text/event-stream; q=\xc3\x28", b"application/x-ndjson, \xfe", &[b'a'; 6000]];
+        let names = ["Accept", "Content-Type", "Accept-Encoding", "User-Agent", "X-Custom", "Last-Event-ID", "Authorization", "xs-meta"];
+        let some_id = self.pick_existing().map(id_str).unwrap_or_else(|| scru128::new().to_string());
+        let target = match self.rng().below(7) {
+            0 | 1 => "/".to_string(),
+            2 => "/?limit=1".to_string(),
+            3 => "/version".to_string(),
+            4 => "/head/t".to_string(),
+            5 => format!("/{}", some_id),
+            _ => format!("/cas/{}", crate::cas::sha256_integrity(b"never stored")),
+        };
+        let mut req = Req::new("GET", &target);
+        let mut desc = vec![];
+        for _ in 0..1 + self.rng().below(2) {
+            let n = *self.rng().pick(&names);
+            let v = *self.rng().pick(&values);
+            req = req.header(n, v);
+            desc.push(n);
+        }
+        *self.r.res.counters.entry("http.hostile_header_requests".into()).or_insert(0) += 1;
+        self.exchange(&req, Class::OkOr4xx, "GET-any", &format!("hostile-header-bytes:{}", desc.join("+")), true)?;
+        Ok(())
+    }
+
     pub fn fixed_probes(&mut self) -> R<()> {
+        self.exchange(&Req::new("GET", "/").header("Accept", b"text/event-stream\xe9"), Class::OkOr4xx, "GET-cat", "accept-header-with-obs-text", false)?;
         let bogus = self.r.bogus_ctxs[0];
         self.exchange(&Req::new("POST", &format!("/a?context={}", id_str(bogus))).body(b"x"), Class::Client4xx, "POST-topic", "invalid-context", false)?;
         let c = self.r.ctxs[0];
@@ -1082,7 +1111,7 @@ impl H {
         self.register_ctx()?;
         self.fixed_probes()?;
         for _ in 0..n {
-            let w = [22u32, 3, 14, 3, 10, 8, 8, 8, 10, 14, 3, 4, 8, 10];
+            let w = [22u32, 3, 14, 3, 10, 8, 8, 8, 10, 14, 3, 4, 8, 10, 6];
             match self.rng().weighted(&w) {
                 0 => self.append_valid()?,
                 1 => self.register_ctx()?,
@@ -1097,7 +1126,8 @@ impl H {
                 10 => self.follow_live()?,
                 11 => self.head_follow()?,
                 12 => self.misc()?,
-                _ => self.cli_ops()?,
+                13 => self.cli_ops()?,
+                _ => self.hostile_headers()?,
             }
             if self.r.res.inconclusive.is_some() {
                 return Ok(());
